@@ -89,6 +89,15 @@ pub struct SharedBuf {
     pos: u64,
 }
 
+impl std::fmt::Debug for SharedBuf {
+    fn fmt(&self, f: &mut std::fmt::Formatter<'_>) -> std::fmt::Result {
+        // (formatting a CompoundFile formats its backend: keep it short, and slow enough to leave a window)
+        let n = self.data.lock().map(|d| d.len()).unwrap_or(0);
+        std::thread::yield_now();
+        write!(f, "SharedBuf({} bytes at {})", n, self.pos)
+    }
+}
+
 impl SharedBuf {
     pub fn new(bytes: Vec<u8>) -> SharedBuf {
         SharedBuf {
